@@ -40,6 +40,17 @@ pub fn palette() -> Vec<(&'static str, Vec<u8>)> {
         ("file_upload", req("POST", "/file-upload/initiate?name=a.txt&size=5&lastModified=1", &[("Content-Length", "5")], b"hello")),
         ("post_static", req("POST", "/file.txt", &[("Content-Length", "3")], b"abc")),
         ("put_missing", req("PUT", "/new.txt", &[("Content-Length", "3")], b"abc")),
+        ("200_bom_json", get("/bom.json")),
+        ("200_bom_txt", get("/bom.txt")),
+        ("200_bom_html", get("/bom.html")),
+        ("200_bom16", get("/bom16.txt")),
+        ("200_only_bom", get("/onlybom.txt")),
+        ("200_only_bom16", get("/onlybom16.txt")),
+        ("206_bom_from_0", req("GET", "/bom.json", &[("Range", "bytes=0-")], b"")),
+        ("206_bom_prefix", req("GET", "/bom.txt", &[("Range", "bytes=0-5")], b"")),
+        ("206_crlf_multipart", req("GET", "/crlf.txt", &[("Range", "bytes=0-9, 20-29")], b"")),
+        ("200_gz_sibling_accept_gzip", req("GET", "/file.txt", &[("Accept-Encoding", "gzip")], b"")),
+        ("head_bom_json", req("HEAD", "/bom.json", &[], b"")),
     ]
 }
 
@@ -51,6 +62,18 @@ fn base(seed: u64, campaign: &'static str, idx: u64) -> (Scenario, crate::util::
     sc.workers = 1;
     sc.request_size = 10000;
     sc.tree = small_tree(0xC05);
+    // text files that begin with a byte order mark, signature-only files, a compressed sibling
+    for (name, c) in [
+        ("bom.json", Content::Literal(b"\xef\xbb\xbf{\"setting\": true}\n".to_vec().into())),
+        ("bom.txt", Content::Literal(b"\xef\xbb\xbfplain text after a byte order mark\n".to_vec().into())),
+        ("bom.html", Content::Literal(b"\xef\xbb\xbf<!DOCTYPE html><p>x</p>\n".to_vec().into())),
+        ("bom16.txt", Content::Literal(b"\xff\xfeh\0i\0".to_vec().into())),
+        ("onlybom.txt", Content::Literal(b"\xef\xbb\xbf".to_vec().into())),
+        ("onlybom16.txt", Content::Literal(b"\xff\xfe".to_vec().into())),
+        ("crlf.txt", Content::Literal("line 000\r\nline 001\r\nline 002\r\nline 003\r\nline 004\r\n".into())),
+    ] {
+        sc.tree.entries.push(Entry { path: format!("root/{}", name), kind: EntryKind::File(c) });
+    }
     (sc, rng)
 }
 
@@ -226,6 +249,7 @@ pub fn plan(tier: Tier, seed: u64) -> Vec<Campaign> {
         exhaustive: false,
         gen: Box::new(move |i| write_faults(seed, i)),
     });
+    v.push(Campaign { name: "burst", budget: Budget::Count(match tier { Tier::Quick => 6, Tier::Thorough => 60 }), exhaustive: false, gen: Box::new(move |i| super::c04::burst_for("C05", seed, i)) });
     v.push(Campaign { name: "large_files", budget: Budget::Count(match tier { Tier::Quick => 48, Tier::Thorough => 400 }), exhaustive: false, gen: Box::new(move |i| super::c02::large_scenario("C05", seed, i)) });
     if tier == Tier::Thorough {
         v.push(Campaign { name: "random_multi_split", budget: Budget::Time(2), exhaustive: false, gen: Box::new(move |i| multi_split(seed, i)) });
